@@ -18,12 +18,14 @@ func profBatch(en *Env) {
 	limits := []int64{200, 300, 600, 3000, 40000, 1 << 20}
 	for t := 0; t < traces; t++ {
 		cfg := h.CoverCfg(en.R, t, limits)
-		batchTrace(en, cfg)
+		batchTrace(en, cfg, t%2 == 1)
 	}
 	en.Summary["traces"] = traces
 }
 
-func batchTrace(en *Env, cfg h.Cfg) {
+// hostile: the caller passes every key and value in one reused buffer each and overwrites them after every return
+// (C15 allows that; what the batch staged must not depend on it)
+func batchTrace(en *Env, cfg h.Cfg, hostile bool) {
 	r := en.R
 	nkeys := 2 + r.Intn(4)
 	dir := en.FreshDir()
@@ -31,6 +33,7 @@ func batchTrace(en *Env, cfg h.Cfg) {
 	u := h.PickKeys(r, nkeys, 5+r.Intn(8))
 	vs := h.NewValues()
 	e := h.NewEng(dir, en.Work+"/scratch", cfg, u, vs, en.T)
+	e.Hostile = hostile
 	en.T.Emit(h.Ev{"ev": "reset", "n": nkeys, "seed": en.Seed, "prof": "batch"})
 	if e.Open(cfg) != "ok" {
 		return
